@@ -247,9 +247,10 @@ fn probe<T: Probe + ?Sized>(r: Option<&T>, base: usize) -> Out {
 
 /// Views the tag at offset 8 of the boot information `region` as family member
 /// `fam` through both public routes.
-fn view(fam: usize, region: &Aligned) -> (Out, Out) {
+fn view(fam: usize, region: &Aligned, loose: &Aligned) -> (Out, Out, Out) {
     use mb2_model::panics::catch;
     let base = region.as_ptr() as usize;
+    let lbase = (loose.as_ptr() as usize).wrapping_sub(8);
     let mbi = unsafe { BootInformation::load(region.as_ptr().cast()) }.expect("case regions load");
     macro_rules! go {
         ($T:ty) => {{
@@ -259,7 +260,13 @@ fn view(fam: usize, region: &Aligned) -> (Out, Out) {
                 probe(Some(g.cast::<$T>()), base)
             })
             .unwrap_or(Out::Panic);
-            (a, b)
+            // the tag followed by slack bytes, through the slice constructor
+            let c = catch(|| {
+                let g = DynSizedStructure::<TagHeader>::ref_from_slice(loose.as_slice()).expect("a slice that holds the tag and more");
+                probe(Some(g.cast::<$T>()), lbase)
+            })
+            .unwrap_or(Out::Panic);
+            (a, b, c)
         }};
     }
     match fam {
@@ -305,6 +312,10 @@ pub struct Case {
     pub fam: usize,
     pub size: u32,
     pub key: u64,
+    /// bytes behind the tag in the slice route: 0..=4 -> 8*k; 5 -> as many
+    /// as make the slice as long as the viewing type's own size
+    #[serde(default)]
+    pub slack: u8,
 }
 
 pub fn eval(c: &Case, obs: &mut Obs) -> Result<(), String> {
@@ -316,7 +327,15 @@ pub fn eval(c: &Case, obs: &mut Obs) -> Result<(), String> {
     let body: Vec<u8> = (0..size - 8).map(|i| marker(c.key, 8 + i)).collect();
     let region = mb2_model::encode::mbi(&[mb2_model::encode::tag(id, &body)], 0, 0x5A, true);
     let a = Aligned::new(&region);
-    let (via_get, via_cast) = view(c.fam % FAMILY.len(), &a);
+    let mut loose = mb2_model::encode::tag(id, &body);
+    mb2_model::encode::pad8(&mut loose, 0x5A);
+    let slack = match c.slack {
+        0..=4 => 8 * c.slack as usize,
+        _ => r8(fixed).saturating_sub(r8(size)),
+    };
+    loose.extend((0..slack).map(|i| marker(c.key ^ 0x51AC, i)));
+    let la = Aligned::new(&loose);
+    let (via_get, via_cast, via_slice) = view(c.fam % FAMILY.len(), &a, &la);
     let natural = if elem == 0 { r8(fixed) } else { 0 };
     let exact_fit = if elem == 0 { size == fixed } else { size >= fixed && (size - fixed) % elem == 0 };
     // a 4-aligned type whose own size is not a multiple of 8 has no tag it could
@@ -329,7 +348,8 @@ pub fn eval(c: &Case, obs: &mut Obs) -> Result<(), String> {
         obs.nontrivial(fnv(format!("{name}/{size}").as_bytes()));
         obs.sample(json!({"type": name, "fixed_part": fixed, "element_size": elem, "tag_size": size, "exact_fit": exact_fit}));
     }
-    for (route, out) in [("get_tag", via_get), ("cast", via_cast)] {
+    let slice_route = format!("ref_from_slice({} bytes of slack)+cast", slack);
+    for (route, out) in [("get_tag", via_get), ("cast", via_cast), (slice_route.as_str(), via_slice)] {
         match out {
             Out::Panic => {
                 if exact_fit && viewable {
@@ -355,11 +375,11 @@ pub fn eval(c: &Case, obs: &mut Obs) -> Result<(), String> {
 
 fn enumerate(ctx: &Ctx) -> Box<dyn Iterator<Item = Case>> {
     let top = if ctx.tier == Tier::Thorough { 160 } else { 96 };
-    Box::new((0..FAMILY.len()).flat_map(move |fam| (8..=top).map(move |size| Case { fam, size, key: (fam * 1000 + size as usize) as u64 })))
+    Box::new((0..FAMILY.len()).flat_map(move |fam| (8..=top).flat_map(move |size| [0u8, 1, 5].into_iter().map(move |slack| Case { fam, size, key: (fam * 1000 + size as usize) as u64, slack }))))
 }
 
 fn strategy(_: &Ctx) -> BoxedStrategy<Case> {
-    (0..FAMILY.len(), 8u32..=1024, any::<u64>()).prop_map(|(fam, size, key)| Case { fam, size, key }).boxed()
+    (0..FAMILY.len(), 8u32..=1024, any::<u64>(), 0u8..6).prop_map(|(fam, size, key, slack)| Case { fam, size, key, slack }).boxed()
 }
 
 // --- built-in kinds ---------------------------------------------------------
@@ -449,7 +469,7 @@ pub fn subs() -> Vec<Box<dyn Sub>> {
     vec![
         Box::new(PropSub::<Case> {
             name: "custom-family",
-            rule: "34 harness-defined tag types with truthful BASE_SIZE/dst_len (8-aligned: sized with 0..=6 extra words; DST tails with element sizes 1,2,3,4,8,24 behind fixed parts of 8..=24 bytes, alignment-compatible combinations; 4-aligned types that do not embed TagHeader: sized 12..=28 bytes, DST with u32 tail) with custom IDs, viewed through BootInformation::get_tag and DynSizedStructure::cast. Enumerated completely: every type x every tag size 8..=96 (thorough 160); generated: sizes up to 1024. Oracle: panic, or a view at the tag's address with size_of_val == r8(tag size) whose last field byte aliases the tag; an exactly fitting size must be accepted. Non-trivial = exact fit, or a sized type at a non-matching size; distinct by (type, size)",
+            rule: "34 harness-defined tag types with truthful BASE_SIZE/dst_len (8-aligned: sized with 0..=6 extra words; DST tails with element sizes 1,2,3,4,8,24 behind fixed parts of 8..=24 bytes, alignment-compatible combinations; 4-aligned types that do not embed TagHeader: sized 12..=28 bytes, DST with u32 tail) with custom IDs, viewed through BootInformation::get_tag, DynSizedStructure::cast on the iterated tag, and ref_from_slice over the tag followed by slack bytes (0, 8, .., 32, or exactly enough to make the slice as long as the viewing type) + cast. Enumerated completely: every type x every tag size 8..=96 (thorough 160) x slack {0, 8, up-to-type-size}; generated: sizes up to 1024. Oracle: panic, or a view at the tag's address with size_of_val == r8(tag size) whose last field byte aliases the tag; an exactly fitting size must be accepted. Non-trivial = exact fit, or a sized type at a non-matching size; distinct by (type, size)",
             profiles: Profiles::Both,
             quick: 20000,
             thorough: 300000,
